@@ -41,7 +41,6 @@ def run_impl(worker, cases, hashseed='0', extra=None, min_per_shard=4):
     for k, o in enumerate(outs):
         for j, r in enumerate(o):
             res[k + j * n] = r
-    for r in res:
-        if isinstance(r, dict) and 'worker_error' in r:
-            raise RuntimeError('impl worker internal error: ' + r['worker_error'])
+    # a case whose run ended in an exception the worker does not expect is handed on as {'worker_error': traceback}:
+    # the engine reports it as a disagreement between implementation and model (see engine.evaluate)
     return res
